@@ -350,7 +350,7 @@ package router
 //@ pure clampHi(s string, x int) int = ite(x > runeLen(s), runeLen(s), x)
 //@ func stringHash
 //@   mode bv
-//@   requires -(1<<40) < start && start < 1<<40 && -(1<<40) < end && end < 1<<40
+//@   requires -(1<<50) < start && start < 1<<50 && -(1<<50) < end && end < 1<<50
 //@   assigns \nothing
 //@   loop 0(i) invariant cur(start) == clampLo(start) && cur(end) == clampHi(s, end) && cur(start) <= i && (i <= cur(end) || i == cur(start)) && len(input) == runeLen(s) && forall(k, 0, len(input), input[k] == runeAt(s, k))
 //@   loop 0(i) invariant h == jhash(s, cur(start), i) && (i == cur(start) ==> h == 0)
